@@ -83,6 +83,32 @@ FEATURES = [
     dict(name="jmc_require", feature="FReturnRun", src='JMC.require(other, "other:api/v1");', header="#link other"),
 ]
 
+# ---- disk builds
+DISK_SRC = 'function foo.bar(){ say "x"; } Trigger.add(helpme, ()=>{ foo.bar(); say "b"; });'
+DISK_EXPECT = [("build#functions", NS, "foo/bar"), ("build#functions", NS, "{LOAD}"), ("build#functions", NS, "{TICK}"),
+               ("build#tags", "minecraft", "load"), ("build#tags", "minecraft", "tick"), ("TriggerAdd.call#0", NS, "{P}/trigger_add/enable")]
+DISK_SCENARIOS = ["fresh", "other_convention", "same_convention", "rebuild", "rebuild_other_convention", "rebuild_across_rename"]
+
+
+def disk_scenario(sc, f, pf10):
+    """(files already in the output directory, pack formats of the successive builds)"""
+    def foreign(legacy):
+        fn = "functions" if legacy else "function"
+        return {f"data/minecraft/tags/{fn}/load.json": '{\n    "values": [\n        "otherpack:load"\n    ]\n}',
+                f"data/minecraft/tags/{fn}/tick.json": '{\n    "values": [\n        "otherpack:tick"\n    ]\n}',
+                f"data/otherpack/{fn}/load.mcfunction": "say other"}
+    legacy = pf10 < 480
+    other_side = "48" if legacy else "41"
+    return {
+        "fresh": ({}, [f]),
+        "other_convention": (foreign(not legacy), [f]),
+        "same_convention": (foreign(legacy), [f]),
+        "rebuild": ({}, [f, f]),
+        "rebuild_other_convention": (foreign(not legacy), [f, f]),
+        "rebuild_across_rename": ({}, [other_side, f]),
+    }[sc]
+
+
 EXTRA_QUICK = ["47", "49", "16", "33", "47.9", "48.0", "13", "62"]
 
 FOLDER_KINDS = sorted(((s, k) for s, k in TS.KINDS.items()), key=lambda x: -len(x[0]))
@@ -316,6 +342,15 @@ def main(tier: str) -> int:
             for lower in (False, True):
                 jobs.append(dict(kind="require", pf=f, f=th, lower=lower, as_version=(len(jobs) % 2 == 0)))
                 meta.append(dict(type="require", fmt=f, pf10=TS.scaled(f), thr=th, lower=lower))
+    # REAL disk builds (compile_jmc): fresh output / output that already holds tag files of the other or of the same convention
+    # (another pack's) / rebuild / rebuild across the rename — where do ns:__load__ and ns:__tick__ and every other file go?
+    disk_formats = fmts if tier == "thorough" else [f for f in fmts if TS.scaled(f) in table10 or f in ("47", "49")]
+    for f in disk_formats:
+        pf10 = TS.scaled(f)
+        for sc in DISK_SCENARIOS:
+            pre, builds = disk_scenario(sc, f, pf10)
+            jobs.append(dict(kind="disk", src=DISK_SRC, pre=pre, builds=builds, namespace=NS))
+            meta.append(dict(type="disk", probe=dict(name="disk_" + sc, expect=DISK_EXPECT), cert=0, fmt=f, pf10=pf10, scenario=sc, pre=pre))
     results = run_jobs(jobs)
 
     pcases, pmeta, fcases, fmeta, rcases, rmeta = [], [], [], [], [], []
@@ -340,6 +375,36 @@ def main(tier: str) -> int:
                 continue
             rcases.append(f"mkR {cz(m['pf10'])} {cz(TS.scaled(m['thr']))} {coq_bool(m['lower'])} {r['r']}%nat")
             rmeta.append(m)
+            continue
+        if m["type"] == "disk":
+            if not r["ok"]:
+                key = ("disk", m["scenario"], m["pf10"] < 480, r["exc"])
+                if key not in once:
+                    once.add(key)
+                    ck.violation(dict(kind="probe-failed", probe=m["probe"]["name"], pack_format=m["fmt"], src=job["src"], builds=job["builds"], pre=job["pre"],
+                                      expected="the disk build succeeds", actual=f"{r['exc']}: {r['msg'][:400]}"))
+                continue
+            ours = {p: c for p, c in r["files"].items()
+                    if p.startswith(f"data/{NS}/") or (p.startswith("data/minecraft/tags/") and f'"{NS}:' in c)}
+            paths, folders, refs = analyse({"OUT/" + p: c for p, c in ours.items()}, {NS})
+            foreign_changed = sorted(p for p, c in m["pre"].items() if p in r["files"] and r["files"][p] != c
+                                     and not p.startswith(f"data/minecraft/tags/{probe_folder('function', m['pf10'])}/"))
+            if foreign_changed:
+                key = ("foreign", m["scenario"], m["pf10"] < 480)
+                if key not in once:
+                    once.add(key)
+                    ck.violation(dict(kind="foreign-file-modified", probe=m["probe"]["name"], pack_format=m["fmt"], src=job["src"], builds=job["builds"], pre=job["pre"],
+                                      expected="tag files of the OTHER folder convention (another pack's) are left as they are or removed, never written",
+                                      actual={p: r["files"][p] for p in foreign_changed}, foreign=foreign_changed))
+            expect = [(label_index[lab], ns, idt.replace("{P}", "__private__").replace("{LOAD}", "__load__").replace("{TICK}", "__tick__"))
+                      for lab, ns, idt in DISK_EXPECT if lab in label_index]
+            m.update(paths=paths, folders=folders, refs=refs, expect=expect)
+            pcases.append("mkP %s %s %s %s %s" % (
+                cz(m["pf10"]), coq_list(coq_str(p) for p in paths),
+                coq_list(f"({i}%nat, {coq_str(ns)}, {coq_str(i_d)})" for i, ns, i_d in expect),
+                coq_list(f"({k}, {coq_str(ns)}, {coq_str(i_d)})" for k, ns, i_d in refs),
+                coq_list(f"({k}, {coq_str(fo)})" for k, fo in folders)))
+            pmeta.append(m)
             continue
         rejected = (not r["ok"]) and r["exc"] in ("MinecraftVersionTooLow", "MinecraftVersionTooHigh")
         feature = m["probe"].get("feature")
@@ -405,7 +470,8 @@ def main(tier: str) -> int:
             exp_paths = [str(e)] * len(exprs)
         missing = [dict(what=w, expected_file=p) for w, p in zip(what, exp_paths) if p not in m["paths"]]
         wrong_folders = [dict(kind=k, folder=fo) for k, fo in m["folders"] if fo != probe_folder(dict((v, s) for s, v in TS.KINDS.items())[k], m["pf10"])]
-        key = (tuple(sorted(x["what"].replace(CERTS[m["cert"]]["PRIVATE"], "{P}") for x in missing)), tuple(sorted(w["folder"] for w in wrong_folders)), m["pf10"] < 480)
+        key = (tuple(sorted(x["what"].replace(CERTS[m["cert"]]["PRIVATE"], "{P}") for x in missing)), tuple(sorted(w["folder"] for w in wrong_folders)), m["pf10"] < 480,
+               m.get("scenario"))
         if key in seen:
             continue
         seen.add(key)
@@ -414,9 +480,10 @@ def main(tier: str) -> int:
             exp_txt += "each of these files exists in the output: " + json.dumps(missing) + " "
         if wrong_folders:
             exp_txt += "no emitted file lies in a folder this pack format's Minecraft does not read: " + json.dumps(wrong_folders)
+        inp = (dict(builds=m["job"]["builds"], pre=m["job"]["pre"]) if m["type"] == "disk" else
+               dict(header=m["job"].get("header"), jmc_txt=m["job"]["cert"], copy_tree=m["job"].get("copy_tree")))
         ck.violation(dict(kind="wrong-folder" if wrong_folders or any(x["what"].startswith("resource") for x in missing) else "dangling-reference",
-                          probe=m["probe"]["name"], pack_format=m["fmt"], src=m["job"]["src"], header=m["job"].get("header"),
-                          jmc_txt=m["job"]["cert"], copy_tree=m["job"].get("copy_tree"),
+                          probe=m["probe"]["name"], pack_format=m["fmt"], src=m["job"]["src"], **inp,
                           expected=exp_txt,
                           missing=missing, wrong_folders=wrong_folders, actual_files=m["paths"]))
     seen = set()
@@ -481,6 +548,19 @@ def replay(path: str) -> int:
     if "src" not in rp:
         print("replay file names no input (", rp.get("kind"), "):", rp.get("what") or rp.get("error"))
         return 1
+    if "builds" in rp:
+        r = run_py(RUNNER, [dict(kind="disk", src=rp["src"], pre=rp["pre"], builds=rp["builds"], namespace=NS)])[0]
+        print("program     :", rp["src"]); print("disk builds :", rp["builds"], "into a directory holding", sorted(rp["pre"]))
+        print("expected    :", rp["expected"])
+        if not r["ok"]:
+            print("actual      :", r["exc"], r["msg"][:300])
+            return 1
+        ours = sorted(p for p, c in r["files"].items() if p.startswith(f"data/{NS}/") or (p.startswith("data/minecraft/tags/") and f'"{NS}:' in c))
+        print("actual files (of this namespace / tag files naming it):", ours)
+        still = [m for m in rp.get("missing", []) if m["expected_file"] not in ours]
+        still += [w for w in rp.get("wrong_folders", []) if any(re.match(r"data/[^/]+/%s/" % re.escape(w["folder"]), p) for p in ours)]
+        still += [p for p in rp.get("foreign", []) if p in r["files"] and r["files"][p] != rp["pre"][p]]
+        return 1 if still else 0
     job = dict(kind="compile", src=rp["src"], header=rp.get("header"), cert=rp["jmc_txt"], pack_format=rp["pack_format"])
     if rp.get("copy_tree"):
         job["copy_tree"] = rp["copy_tree"]
